@@ -343,7 +343,8 @@ let apply (toks : string list) (buf : Buffer.t) =
       | Some w ->
         let e = parse_eid arr.(2) in
         if not (is_active w e) then ret := "noentry" else
-        match entry_query w e (parse_views arr.(5)) (parse_filter arr.(6)) with
+        (* as the code does it: the declared entry views first (maybe-uninit slots), then the sub-views out of them *)
+        match entries_entry_query w e (parse_views arr.(4)) (parse_views arr.(5)) (parse_filter arr.(6)) with
         | None -> raise (ModelUB "entries query")
         | Some None -> ret := "nomatch"
         | Some (Some r) -> ret := "row " ^ fmt_row r)
